@@ -17,7 +17,7 @@ from typing import Any, Dict, List, Optional, Tuple
 from .core import Rng, zlit
 
 VARS = ["x", "y", "z"]
-ATTR_ID = {"a": 0, "b": 1, "items": 2, "kids": 3, "child": 4, "k": 5, "pair[0]": 6, "pair[1]": 7, "geta()": 8}
+ATTR_ID = {"a": 0, "b": 1, "items": 2, "kids": 3, "child": 4, "k": 5, "pair[0]": 6, "pair[1]": 7, "geta()": 8, "rows[0]": 9, "rows[1]": 10}
 OPS = {"==": "OpEq", "!=": "OpNe", "<": "OpLt", "<=": "OpLe", ">": "OpGt", ">=": "OpGe"}
 PYOPS = {"==": operator.eq, "!=": operator.ne, "<": operator.lt, "<=": operator.le, ">": operator.gt, ">=": operator.ge}
 
@@ -29,6 +29,7 @@ class P:
         self.oid, self.a, self.b, self.items = oid, a, b, list(items)
         self.kids, self.child = [], self
         self.pair = (a, b)
+        self.rows = (list(items), [a, b])      # collection-valued elements of ONE container: x.rows[0] == x.rows[1] compares as sets
 
     def geta(self):
         return self.a
@@ -69,9 +70,9 @@ def otype(case, e) -> str:
         return "ints" if isinstance(e[1], list) else "int"
     if k == "var":
         return case["vars"][e[1]]
-    if k in ("idx", "call"):
+    if k in ("idx", "call", "ridx"):
         if otype(case, e[1]) == "P":
-            return "int"
+            return "ints" if k == "ridx" else "int"
         raise ValueError(f"ill-typed operand {e}")
     if k == "attr":
         t = otype(case, e[1])
@@ -86,7 +87,7 @@ def otype(case, e) -> str:
 def opnd_var(e) -> Optional[str]:
     if e[0] == "var":
         return e[1]
-    if e[0] in ("attr", "idx", "call"):
+    if e[0] in ("attr", "idx", "call", "ridx"):
         return opnd_var(e[1])
     return None
 
@@ -287,6 +288,8 @@ def g_opnd(case, e, ix=None) -> str:
         return f"(OAttr {g_opnd(case, e[1], ix)} {ATTR_ID['pair[%d]' % e[2]]}%nat)"
     if k == "call":      # e.geta(): Call(Attribute)
         return f"(OAttr {g_opnd(case, e[1], ix)} {ATTR_ID['geta()']}%nat)"
+    if k == "ridx":      # e.rows[i]: Index(Attribute) whose value is itself a collection (of ints)
+        return f"(OAttr {g_opnd(case, e[1], ix)} {ATTR_ID['rows[%d]' % e[2]]}%nat)"
     return f"(OAttr {g_opnd(case, e[1], ix)} {ATTR_ID[e[2]]}%nat)"
 
 
@@ -318,7 +321,8 @@ def g_world(case) -> str:
             attrs = [(0, f"VI {zlit(o['a'])}"), (1, f"VI {zlit(o['b'])}"),
                      (2, "VLI [" + "; ".join(zlit(z) for z in o["items"]) + "]"),
                      (3, "VLO [" + "; ".join(str(z) for z in o["kids"]) + "]"), (4, f"VO {o['child']}"),
-                     (6, f"VI {zlit(o['a'])}"), (7, f"VI {zlit(o['b'])}"), (8, f"VI {zlit(o['a'])}")]
+                     (6, f"VI {zlit(o['a'])}"), (7, f"VI {zlit(o['b'])}"), (8, f"VI {zlit(o['a'])}"),
+                     (9, "VLI [" + "; ".join(zlit(z) for z in o["items"]) + "]"), (10, f"VLI [{zlit(o['a'])}; {zlit(o['b'])}]")]
         else:
             attrs = [(0, f"VI {zlit(o['a'])}"), (5, f"VI {zlit(o['k'])}")]
         objs.append(f"({o['id']}, {zlit(o['key'])}, [" + "; ".join(f"({a}%nat, {v})" for a, v in attrs) + "])")
@@ -528,6 +532,8 @@ def build_query(case, objs, quantifier="an", **qkw):
             return shared[key]
         if k == "idx":
             node = getattr(opnd(e[1]), "pair")[e[2]]
+        elif k == "ridx":
+            node = getattr(opnd(e[1]), "rows")[e[2]]
         elif k == "call":
             node = opnd(e[1]).geta()
         else:
@@ -930,7 +936,8 @@ def gen_case(rng: Rng, profile: str = "c01", extras: bool = False) -> dict:
         if twins and vi == 0:
             r = 0.2     # the first (free) variable ranges over the value-equal twins
         if r < 0.15:
-            dom = [rng.randint(0, 2) for _ in range(rng.randint(0 if rng.chance(0.1) else 1, 3))]
+            lo = -2 if rng.chance(0.25) else 0      # -1 and -2 have the same hash() in CPython (seeded C01-J: ids by hash)
+            dom = [rng.randint(lo, 2) for _ in range(rng.randint(0 if rng.chance(0.1) else 1, 3 if lo == 0 else 4))]
             if profile == "c02" or rng.chance(0.8):
                 dom = list(dict.fromkeys(dom))
             case["vars"][name], case["doms"][name] = "int", dom
@@ -985,6 +992,13 @@ def gen_case(rng: Rng, profile: str = "c01", extras: bool = False) -> dict:
         if r < 0.36 and pvars:   # collections compared as sets
             l = ["attr", ["var", rng.choice(pvars)], "items"]
             rr = ["attr", ["var", rng.choice(pvars)], "items"] if rng.chance(0.5) else ["lit", [rng.randint(0, 2) for _ in range(rng.randint(0, 2))]]
+            if extras and rng.chance(0.4):
+                # collection-valued elements indexed out of a container, often out of the SAME container object
+                # (seeded C01-I: an identity shortcut for "a collection equals itself" keyed by the container's id)
+                v1 = rng.choice(pvars)
+                l = ["ridx", ["var", v1], rng.randint(0, 1)]
+                if rng.chance(0.7):
+                    rr = ["ridx", ["var", v1 if rng.chance(0.7) else rng.choice(pvars)], rng.randint(0, 1)]
             return ["cmp", rng.choice(["==", "!="]), l, rr]
         l = int_operand(False)
         return ["cmp", rng.choice(list(OPS)), l, int_operand()]
